@@ -88,7 +88,8 @@ def run(spec, out):
         f = sys._getframe(2)
         while f is not None:
             code = f.f_code
-            if code.co_filename.startswith(os.path.dirname(measured_file)) and code.co_name not in ("__init__", "__new__", "init_monitor"):
+            private = code.co_name.startswith("_") and not code.co_name.endswith("__")  # helpers come and go: name the public caller
+            if code.co_filename.startswith(os.path.dirname(measured_file)) and code.co_name not in ("__init__", "__new__", "init_monitor") and not private:
                 qual = getattr(code, "co_qualname", code.co_name)
                 return qual
             f = f.f_back
@@ -129,7 +130,7 @@ def run(spec, out):
             if tuple(u.dimension.exponents) != want:
                 violation("C01:table-entry-with-wrong-dimension", f"after step {state['step']} ({state['op']}): {u!r} reports {u.dimension} but its factors multiply to {want}",
                           {"step": state["step"], "op": state["op"], "unit": repr(u)})
-            if Unit._build_key(u.prefix, u.factors) != key:
+            if Unit(u.prefix, dict(u.factors), u.dimension) is not u:  # the table answers for this unit's own prefix and factors with another object
                 violation("C01:unit-stored-under-foreign-key", f"{u!r}", {"step": state["step"]})
         count("units_swept", n)
         for key, d in list(Dimension._known.items()):
